@@ -58,7 +58,7 @@ PROPS["C08"] = {
             "page start and a second boundary, at base 0, 0x10000, 2^63-4096 and 2^64-8192; widths 8..256 bits; both endiannesses; with and "
             "without a backing that has holes (one backing in three built with the opposite byte order); value types il::Constant and il::Expression (constant-leaf trees, evaluated by refeval). After "
             "every store/set_permissions each live handle is re-read byte by byte +-16 around the touched range plus random wide loads and "
-            "permissions. Non-trivial = a store that overlaps earlier values or crosses a page; distinct = (overlap shape, endianness, backing, value type). Expression values are also zext/sext of a half-width constant when the stored value is such an extension.",
+            "permissions. Non-trivial = a store that overlaps earlier values or crosses a page; distinct = (overlap shape, endianness, backing, value type). Expression values are also zext/sext of a half-width constant when the stored value is such an extension. A directed case builds pairs of memories of different byte order (same, equal or no backing; with and without equal stores): they may compare equal only if no 16/32-bit load tells them apart.",
     "level_text": "Random operation histories against an executable reference model with immediate re-reads on all clones, so copy-on-write leaks, "
                   "wrong splits of overlapped values and stale back-references are seen with a short witness. Coverage is by sampling; overlap shapes reached are listed in the evidence.",
     "level_note": "trusts the byte-map model in harness/src/c08.rs; permissions are modelled page-granular, as falcon documents set_permissions ('for the page at the given address')",
@@ -396,7 +396,7 @@ PROPS["C20"] = {
             "register-sweep corpus; no register name both preserved and trashed (in the published sets and through is_preserved/is_trashed, which must agree with the sets); stack pointer preserved; stack slots of one machine word at "
             "consecutive offsets; argument order / return register / return-address location per psABI; stack_pointer() is the scalar written by a "
             "push/addiu $sp/stwu r1/sub sp instruction serialised in arch.endian() order; the MIPS unaligned-word idioms lwl/lwr and swl/swr at all four alignments read and write the word in arch.endian() byte order; load/store address width = word_size(); loader::Elf maps "
-            "(e_machine, EI_DATA) to the same descriptor. Distinct = (architecture, role, register) facts confirmed. Each architecture is swept three times: in a process that lifted nothing else, after every other architecture lifted something (table order) and likewise in reverse order; inside each case the sweep is repeated behind one more round of the others and must observe the same scalars (state cached across translators shows as a difference). The loader mapping is also asked for EM_X86_64 in an ELFCLASS32 file (x32): the machine field names the instruction set.",
+            "(e_machine, EI_DATA) to the same descriptor. Distinct = (architecture, role, register) facts confirmed. Each architecture is swept three times: in a process that lifted nothing else, after every other architecture lifted something (table order) and likewise in reverse order; inside each case the sweep is repeated behind one more round of the others and must observe the same scalars (state cached across translators shows as a difference). The loader mapping is also asked for EM_X86_64 in an ELFCLASS32 file (x32): the machine field names the instruction set. Every descriptor is compared with its box_clone().",
     "level_text": "A finite configuration space, enumerated completely (exhaustive: true); the observed side depends on the corpus, which sweeps every register number of every register class the conventions mention.",
     "level_note": "trusts the psABI table in harness/src/c20.rs (argument registers, return register, return-address location for cdecl, SysV amd64, o32, PPC SVR4, AAPCS64) and harness/src/elfgen.rs for the loader probe",
     "assumptions": ["psABI facts transcribed by hand into harness/src/c20.rs"],
